@@ -1904,6 +1904,21 @@ def sample_once(model, fname, style, conv, with_out, kw=None):
         out = filled(shape, Rat.var('garbage'), dtn)
         kwargs['out'] = out
     res = I.call_func(Func(pc, env, None), [wrapped, x], kwargs)
+    uf.shared_result = False
+    if not with_out:
+        # a second out-of-place evaluation of the same wrapper at other
+        # points of the same shape: the first result must be an array of its
+        # own (its values are compared by the caller after this call)
+        if isinstance(x, tuple):
+            x2 = tuple(NA(v.a[tuple(slice(None, None, -1)
+                                    for _ in v.a.shape)].copy(), v.dt)
+                       for v in x)
+        else:
+            x2 = NA(x.a[..., ::-1].copy(), x.dt)
+        res2 = I.call_func(Func(pc, env, None), [wrapped, x2], dict(kw or {}))
+        if isinstance(res, NA) and isinstance(res2, NA) and (
+                res2 is res or _np.shares_memory(res.a, res2.a)):
+            uf.shared_result = True
     return res, want, shape, out, uf
 
 
@@ -2048,6 +2063,9 @@ def sampling(rep, model, thorough):
                     probs = []
                     if with_out and res is not out:
                         probs.append('does not return the given `out`')
+                    if getattr(uf, 'shared_result', False):
+                        probs.append('two out-of-place evaluations of one '
+                                     'wrapper return arrays sharing memory')
                     if not isinstance(res, NA):
                         probs.append('returns %r' % (res,))
                     elif res.a.shape != shape:
